@@ -87,6 +87,11 @@ class LoopSpec:
     """override what is needed; `name` prefixes the obligations"""
 
     name = "loop"
+    # structural invariants describe HOW the code counts (e.g. "after j groups, j*(m//100) steps"); when the code is
+    # restructured they stop being inductive although the property may still hold, so their failure (and the failure
+    # of anything proved under them) is reported as UNDECIDED, never as a violation.  Semantic invariants state the
+    # property itself (e.g. "the value compared against is beta*F(current point)") and do count as violations.
+    structural = False
     fresh_locals = {}  # locals first assigned inside the body but used after the loop: name -> "real"|"int"
     keep_locals = ()   # assigned in the body but to be left alone by the automatic havoc
 
@@ -133,7 +138,8 @@ class LoopSpec:
                 fr.locals[nme] = Sym(c.fresh(nme + "_h", "Real" if kind == "real" else "Int"))
 
     def _oblige(self, what, cond):
-        self.vc.ensures(f"{self.name}.{what}", cond)
+        self.vc.ensures(f"{self.name}.{what}", cond,
+                        kind="structural-invariant" if (self.structural and what.startswith("inv.")) else "ensures")
 
     def run_for(self, I, st, fr, iterable=None, body_exec=None, assign_target=None):
         c = ctx()
